@@ -1350,3 +1350,251 @@ def redis_defaults_only_when_missing(ctx: Ctx, rule: str) -> None:
         ctx.check(ok, rule, m, "redis maintenance: entries without data are dropped, entries with data are examined", "zrem iff no parameters; decode iff parameters",
                   "redis maintenance treats present data as missing (held messages of dead workers are removed from `processing` instead of being returned) or decodes None (maintenance dies on the first orphan, "
                   "nothing is ever returned)", instance="redis maintenance: data guard")
+
+
+def _specialise_template(fn_node: ast.AST, flags: dict[str, bool]) -> str | None:
+    """Partial evaluation of a small pure name constructor: boolean parameters fixed, `if` / conditional expressions on them folded, string locals propagated; returns the
+    template of the returned text (`{expr}` for every remaining hole) or None when the function is not of that shape."""
+    import copy
+
+    def truth(e):
+        if isinstance(e, ast.Constant):
+            return bool(e.value)
+        if isinstance(e, ast.Name) and e.id in flags:
+            return flags[e.id]
+        if isinstance(e, ast.UnaryOp) and isinstance(e.op, ast.Not):
+            t = truth(e.operand)
+            return None if t is None else not t
+        if isinstance(e, ast.BoolOp):
+            vals = [truth(v) for v in e.values]
+            if isinstance(e.op, ast.And):
+                return False if any(v is False for v in vals) else (True if all(v is True for v in vals) else None)
+            return True if any(v is True for v in vals) else (False if all(v is False for v in vals) else None)
+        return None
+
+    def render(e, env):
+        if isinstance(e, ast.Constant) and isinstance(e.value, str):
+            return e.value
+        if isinstance(e, ast.IfExp):
+            t = truth(e.test)
+            return None if t is None else render(e.body if t else e.orelse, env)
+        if isinstance(e, ast.Name) and e.id in env:
+            return env[e.id]
+        if isinstance(e, ast.JoinedStr):
+            out = ""
+            for v in e.values:
+                if isinstance(v, ast.Constant):
+                    out += str(v.value)
+                else:
+                    inner = render(v.value, env)
+                    out += inner if inner is not None and isinstance(v.value, (ast.IfExp, ast.Name, ast.JoinedStr, ast.Constant)) and (not isinstance(v.value, ast.Name) or v.value.id in env) else "{" + unparse(v.value) + "}"
+            return out
+        if isinstance(e, ast.BinOp) and isinstance(e.op, ast.Add):
+            a, b = render(e.left, env), render(e.right, env)
+            return a + b if a is not None and b is not None else None
+        return None
+
+    def run(stmts, env):
+        for st in stmts:
+            if isinstance(st, ast.Expr) and isinstance(st.value, ast.Constant):
+                continue
+            if isinstance(st, ast.If):
+                t = truth(st.test)
+                if t is None:
+                    return "?"
+                r = run(st.body if t else st.orelse, env)
+                if r is not None:
+                    return r
+                continue
+            if isinstance(st, (ast.Assign, ast.AnnAssign)) and getattr(st, "value", None) is not None:
+                tg = st.targets[0] if isinstance(st, ast.Assign) else st.target
+                if isinstance(tg, ast.Name):
+                    v = render(st.value, env)
+                    if v is None:
+                        return "?"
+                    env[tg.id] = v
+                    continue
+                return "?"
+            if isinstance(st, ast.AnnAssign):
+                continue
+            if isinstance(st, ast.Return):
+                return render(st.value, env) or "?"
+            return "?"
+        return None
+
+    r = run(copy.deepcopy(fn_node).body, {})
+    return None if r in (None, "?") else r
+
+
+def redis_name_constructors(ctx: Ctx, rule: str) -> None:
+    """The Redis key space is built by two pure constructors; every rule about places trusts them. Decided by partial evaluation of their bodies:
+    qnc -> q:{queue}:{priority}:dead | :d | :n (dead wins over delayed), mnc -> m:{queue}:{priority}:{topic}:{id} | {topic}:{id}; all flags default to False."""
+    q = ctx.func("repid.connections.redis.utils.qnc")
+    m = ctx.func("repid.connections.redis.utils.mnc")
+    qp = [a.arg for a in q.node.args.args + q.node.args.kwonlyargs]
+    ctx.require(len(qp) >= 4, f"{q.qualname}: parameters not recognised")
+    qn, pr, dl, dd = qp[0], qp[1], qp[2], qp[3]
+    rows = [({dl: False, dd: False}, f"q:{{{qn}}}:{{{pr}}}:n"), ({dl: True, dd: False}, f"q:{{{qn}}}:{{{pr}}}:d"), ({dl: False, dd: True}, f"q:{{{qn}}}:{{{pr}}}:dead"), ({dl: True, dd: True}, f"q:{{{qn}}}:{{{pr}}}:dead")]
+    for flags, want in rows:
+        got = _specialise_template(q.node, flags)
+        ctx.check(got == want, rule, q, f"redis qnc{tuple(flags.values())} = {want}", "queue key of that place", f"redis qnc with delayed={flags[dl]}, dead={flags[dd]} builds `{got}` instead of `{want}`: "
+                  "waiting, delayed and dead-lettered messages of a queue end up in (or are read from) another place's list", instance=f"redis qnc[{flags[dl]},{flags[dd]}]")
+    kwd = {a.arg: d for a, d in zip(q.node.args.kwonlyargs, q.node.args.kw_defaults)}
+    ctx.check(all(C.is_const(kwd.get(x), False) for x in (dl, dd) if x in kwd), rule, q, "redis qnc: flags default to False", "a plain qnc(queue, priority) is the waiting list",
+              f"redis qnc defaults: { {k: unparse(v) if v is not None else None for k, v in kwd.items()} } - every call that names no flag reads or writes the delayed / dead list", instance="redis qnc defaults")
+    mp = [a.arg for a in m.node.args.args + m.node.args.kwonlyargs]
+    k, sh = mp[0], mp[1]
+    for flags, want in (({sh: False}, f"m:{{{k}.queue}}:{{{k}.priority}}:{{{k}.topic}}:{{{k}.id_}}"), ({sh: True}, f"{{{k}.topic}}:{{{k}.id_}}")):
+        got = _specialise_template(m.node, flags)
+        ctx.check(got == want, rule, m, f"redis mnc(short={flags[sh]}) = {want}", "message key / list member of that message", f"redis mnc with short={flags[sh]} builds `{got}` instead of `{want}`: "
+                  "the hash a message's data is stored under and the member its queue lists hold no longer belong together", instance=f"redis mnc[{flags[sh]}]")
+    kwd = {a.arg: d for a, d in zip(m.node.args.kwonlyargs, m.node.args.kw_defaults)}
+    ctx.check(C.is_const(kwd.get(sh), False) if sh in kwd else True, rule, m, "redis mnc: short defaults to False", "mnc(key) is the hash key", "redis mnc defaults to the short form: message data is stored under the list member's name",
+              instance="redis mnc default")
+
+
+def redis_claim_flow(ctx: Ctx, rule: str) -> None:
+    """The Redis take, guard by guard: nothing is claimed without a fetched name; a fetched name is removed from the list it was read from (LREM for lists, ZREM for the delayed
+    set) and marked in one transaction; a claimed name always proceeds to the read of its data; only complete data is handed out."""
+    f = ctx.func(f"{C.REDIS_CONS}.__get_message_name")
+    g = ctx.cfg(f)
+    lrem = [n.id for n in g.calls() if (n.callee or "").endswith(".lrem")]
+    zrem = [n.id for n in g.calls() if (n.callee or "").endswith(".zrem")]
+    execs = [n.id for n in g.calls() if (n.callee or "").endswith(".execute")]
+    if not ctx.check(bool(lrem) and bool(zrem) and bool(execs), rule, f, "redis take: LREM / ZREM of the fetched name and an executed transaction", "the claim removes exactly the name it fetched",
+                     f"redis __get_message_name has no {'LREM' if not lrem else 'ZREM' if not zrem else 'execute()'} of the fetched name: the claim does not remove the message it read from its queue "
+                     "(a positional pop removes whatever is at the end - another message - while the fetched one stays queued and marked in flight)", instance="redis take: claim commands"):
+        return
+    names = {C.utext(f, n.ast.args[-1]) for n in g.calls() if n.id in lrem + zrem and n.ast.args}
+    subj = next(iter(names)) if len(names) == 1 else "msg_short_name"
+
+    def env(found, delayed):
+        none = _none_env(f, subj, not found)["*b"]
+
+        def pred(node):
+            r = none("", node)
+            if r is not None:
+                return r
+            if isinstance(node, ast.Name) and node.id == "delayed":
+                return delayed
+            return None
+        return _branch_env(pred)
+
+    for found, delayed, want in ((False, False, set()), (False, True, set()), (True, False, {"lrem", "exec"}), (True, True, {"zrem", "exec"})):
+        r = flow.reach_under(g, env(found, delayed), flow.NORMAL_KINDS)
+        got = {k for k, ids in (("lrem", lrem), ("zrem", zrem), ("exec", execs)) if set(ids) & r}
+        ctx.check(got == want, rule, f, f"redis take [name fetched={found}, delayed set={delayed}] -> {sorted(want) or 'nothing'}", "exactly these commands",
+                  f"redis __get_message_name with a name {'fetched' if found else 'NOT fetched'} from the {'delayed set' if delayed else 'list'} issues {sorted(got) or 'nothing'} instead of {sorted(want) or 'nothing'}: "
+                  "a message is marked in flight without leaving its queue (two consumers get it) or leaves it without being claimed", instance=f"redis take[{found},{delayed}]")
+    rets = [n for n in g.nodes if n.kind == "return" and isinstance(n.ast, ast.Return) and n.ast.value is not None and not C.is_const(n.ast.value, None)]
+    ok = bool(rets) and all(C.utext(f, r_.ast.value) == subj for r_ in rets) and all(flow.must_pass(g, g.entry.id, [r_.id], execs, flow.NORMAL_KINDS) for r_ in rets)
+    ctx.check(ok, rule, f, "redis take returns the claimed name, after the transaction", "return <name> dominated by execute()", "redis __get_message_name returns a name it has not claimed (or something else than the claimed name)",
+              instance="redis take: returns claimed name")
+    for reader in ("__get_message_normal", "__get_message_delayed", "__get_message_dead"):
+        rf = ctx.func(f"{C.REDIS_CONS}.{reader}")
+        rg = ctx.cfg(rf)
+        det = [n.id for n in rg.calls() if (n.callee or "").endswith("__get_message_details")]
+        takes = [n for n in rg.calls() if (n.callee or "").endswith("__get_message_name")]
+        ctx.require(bool(det) and bool(takes), f"{rf.qualname}: take / details calls not found")
+        tgt = {s_.target for s_ in rg.nodes if s_.kind == "store" and isinstance(s_.meta.get("value"), ast.Await) and "__get_message_name" in unparse(s_.meta["value"])}
+        sname = next(iter(tgt)) if len(tgt) == 1 else "msg_short_name"
+        r_none = flow.reach_under(rg, _none_env(rf, sname, True), flow.NORMAL_KINDS)
+        r_some = flow.reach_under(rg, _none_env(rf, sname, False), flow.NORMAL_KINDS)
+        ok = not (set(det) & r_none) and bool(set(det) & r_some) and rg.exit.id in r_none
+        # with a name in hand the only way out is through the read of its data
+        ok = ok and all(rg.exit.id not in flow.reach_under(rg, _none_env(rf, sname, False), flow.NORMAL_KINDS, start=t.id, blocked=frozenset(det)) for t in takes)
+        ctx.check(ok, rule, rf, f"redis {reader}: no name -> None, a claimed name -> its data is read", "details iff a name was claimed",
+                  f"redis {reader} gives up on a name it has just claimed (the message stays in `processing`, the messages behind it are delivered first) or reads data for no name", instance=f"redis {reader}: claim then read")
+    d = ctx.func(f"{C.REDIS_CONS}.__get_message_details")
+    dg = ctx.cfg(d)
+    full = [n for n in dg.nodes if n.kind == "return" and isinstance(n.ast, ast.Return) and isinstance(n.ast.value, ast.Tuple)]
+    ctx.require(bool(full), f"{d.qualname}: the return of the message not found")
+
+    field_of: dict[str, str] = {}
+    for s_ in dg.nodes:  # the locals that hold the two fields, whatever they are called
+        v = s_.meta.get("value") if s_.kind == "store" else None
+        if isinstance(v, ast.Await) and isinstance(v.value, ast.Call) and (dotted(v.value.func) or "").endswith(".hget") and len(v.value.args) >= 2 and isinstance(v.value.args[1], ast.Constant):
+            field_of[s_.target] = v.value.args[1].value
+    ctx.require(set(field_of.values()) >= {"payload", "parameters"}, f"{d.qualname}: reads of payload / parameters not found")
+
+    def data_env(p_none, q_none):
+        def pred(node):
+            if isinstance(node, ast.Compare) and len(node.ops) == 1 and isinstance(node.left, ast.Name) and C.is_const(node.comparators[0], None) and node.left.id in field_of:
+                v = p_none if field_of[node.left.id] == "payload" else q_none
+                return v if isinstance(node.ops[0], ast.Is) else (not v) if isinstance(node.ops[0], ast.IsNot) else None
+            return None
+        return _branch_env(pred)
+
+    for p_none, q_none, want in ((False, False, True), (True, False, False), (False, True, False), (True, True, False)):
+        r = flow.reach_under(dg, data_env(p_none, q_none), flow.NORMAL_KINDS)
+        got = any(x.id in r for x in full)
+        ctx.check(got == want, rule, d, f"redis details [payload missing={p_none}, parameters missing={q_none}] -> {'message' if want else 'None'}", "a message only with both fields",
+                  f"redis __get_message_details with payload missing={p_none}, parameters missing={q_none} {'hands out a message' if got else 'returns None'}: incomplete data is decoded (the poll task dies) or a complete message is dropped",
+                  instance=f"redis details[{p_none},{q_none}]")
+
+
+def redis_lifecycle(ctx: Ctx, rule: str) -> None:
+    """start / pause / unpause / poll loop of the Redis consumer: the poll task exists, pausing takes the lock exactly when it is free, unpausing frees it exactly when it is held,
+    the loop waits at the gate exactly while paused, a fetched message is handed over and nothing else is."""
+    st = ctx.func(f"{C.REDIS_CONS}.start")
+    sp = [c for c in ast.walk(st.node) if isinstance(c, ast.Call) and (dotted(c.func) or "").endswith("create_task") and c.args and isinstance(c.args[0], ast.Call)
+          and (dotted(c.args[0].func) or "").endswith("backgroud_consume")]
+    stored = [a for a in ast.walk(st.node) if isinstance(a, ast.Assign) and sp and a.value is sp[0] and any(dotted(t) == "self.consume_task" for t in a.targets)]
+    ctx.check(len(sp) == 1 and bool(stored), rule, st, "redis start: the poll task is created and kept", "self.consume_task = create_task(self.backgroud_consume())",
+              "redis start() does not create (or does not keep) the background poll task: nothing ever moves messages into the consumer's queue, consume() waits for ever; an unreferenced task cannot be cancelled by finish()",
+              instance="redis start: poll task")
+
+    def locked_env(v):
+        def pred(node):
+            if isinstance(node, ast.Call) and dotted(node.func) == "self.pause_lock.locked":
+                return v
+            return None
+        return _branch_env(pred)
+
+    for nm, op, when_locked in (("pause", "acquire", False), ("unpause", "release", True)):
+        fn = ctx.func(f"{C.REDIS_CONS}.{nm}")
+        g = ctx.cfg(fn)
+        ops = [n.id for n in g.calls() if (n.callee or "") == f"self.pause_lock.{op}"]
+        ok = bool(ops) and bool(set(ops) & flow.reach_under(g, locked_env(when_locked), flow.NORMAL_KINDS)) and not (set(ops) & flow.reach_under(g, locked_env(not when_locked), flow.NORMAL_KINDS))
+        ctx.check(ok, rule, fn, f"redis {nm}: {op} exactly when the lock is {'held' if when_locked else 'free'}", f"{op}() iff {'' if when_locked else 'not '}locked()",
+                  f"redis {nm}() does {op}() under the wrong condition: " + ("pausing a paused consumer blocks the runner for ever / a free lock is never taken (the poll loop is not paused: more messages are taken than there are slots)"
+                                                                           if nm == "pause" else "the lock is never released: the consumer stays paused for ever (or release() of a free lock raises)"),
+                  instance=f"redis {nm}: lock protocol")
+    bg = ctx.func(f"{C.REDIS_CONS}.backgroud_consume")
+    g = ctx.cfg(bg)
+    gate = [n.id for n in g.calls() if (n.callee or "") == "self.pause_lock.acquire"]
+    takes = [n.id for n in g.calls() if (n.callee or "").endswith("consume_or_none")]
+    puts = [n.id for n in g.calls() if (n.callee or "") == "self.queue.put"]
+    if not ctx.check(bool(gate) and bool(takes) and bool(puts), rule, bg, "redis poll loop: pause gate, take, hand-over", "all three present",
+                     f"the redis poll loop has no {'pause gate (pause_lock.acquire)' if not gate else 'take' if not takes else 'hand-over to the queue'}: "
+                     "a paused consumer keeps taking messages / nothing is ever delivered", instance="redis poll loop: parts"):
+        return
+    ok = bool(set(gate) & flow.reach_under(g, locked_env(True), flow.NORMAL_KINDS)) and not (set(gate) & flow.reach_under(g, locked_env(False), flow.NORMAL_KINDS)) \
+        and all(t in flow.reach_under(g, locked_env(False), flow.NORMAL_KINDS) for t in takes) \
+        and not any(t in flow.reach_under(g, locked_env(True), flow.NORMAL_KINDS, blocked=frozenset(gate)) for t in takes)
+    ctx.check(ok, rule, bg, "redis poll loop: waits at the gate exactly while paused", "acquire/release iff locked(), before every take", "the redis poll loop passes the pause gate under the wrong condition: a paused consumer keeps "
+              "taking messages (more in flight than tasks_limit), or an unpaused one blocks itself on its own lock (it never polls again)", instance="redis poll loop: gate")
+    loops = [t for t in g.nodes if t.kind == "test" and isinstance(t.ast, ast.Constant)]
+    ctx.check(all(t.ast.value is True for t in loops), rule, bg, "redis poll loop runs until cancelled", "while True", "the redis poll loop is not entered (`while False`): nothing is ever delivered", instance="redis poll loop: forever")
+
+    def got_env(v):
+        def pred(node):
+            if isinstance(node, ast.Compare) and len(node.ops) == 1 and isinstance(node.left, ast.Name) and node.left.id == "msg" and C.is_const(node.comparators[0], None):
+                return (not v) if isinstance(node.ops[0], ast.Is) else v if isinstance(node.ops[0], ast.IsNot) else None
+            return None
+        return _branch_env(pred)
+
+    ok = bool(set(puts) & flow.reach_under(g, got_env(True), flow.NORMAL_KINDS)) and not (set(puts) & flow.reach_under(g, got_env(False), flow.NORMAL_KINDS))
+    ctx.check(ok, rule, bg, "redis poll loop: a fetched message is handed over, None is not", "queue.put(msg) iff msg is not None", "the redis poll loop hands None to the consumer's queue (consume() unpacks None: the runner's loop dies) "
+              "or drops the message it has just claimed", instance="redis poll loop: hand-over")
+    cf = ctx.func(f"{C.REDIS_CONS}.consume")
+    rets = C.own_returns(cf)
+    ok = len(rets) == 1 and C.utext(cf, rets[0].value, calls="all", awaits=True) == "await self.queue.get()"
+    ctx.check(ok, rule, cf, "redis consume() returns the next message of its queue", "return await self.queue.get()", "redis consume() does not return what the poll loop handed over", instance="redis consume: returns queue.get()")
+    co = ctx.func(f"{C.REDIS_CONS}.consume_or_none")
+    gc = ctx.cfg(co)
+    nacks = [n.id for n in gc.calls() if C.broker_op(ctx, n, ("nack",))]
+    full = [n.id for n in gc.nodes if n.kind == "return" and isinstance(n.ast, ast.Return) and n.ast.value is not None and not C.is_const(n.ast.value, None)]
+    ok = not (set(nacks + full) & flow.reach_under(gc, got_env(False), flow.NORMAL_KINDS)) and bool(set(full) & flow.reach_under(gc, got_env(True), flow.NORMAL_KINDS))
+    ctx.check(ok, rule, co, "redis consume_or_none: nothing fetched -> next priority, no message touched", "no nack / return of a message when msg is None",
+              "redis consume_or_none unpacks / dead-letters / returns a message it did not get (the poll task dies on the first empty priority) or never returns the one it got", instance="redis consume_or_none: empty priority")
